@@ -475,7 +475,7 @@ def expected_tokens(step, pre):
     return tokens(pre)
 
 
-def check_step(step, pre, res, fallback_root=None):
+def check_step(step, pre, res, kids_before=None):
     """C04 contract of one transformation: `pre` spec of the tree it was applied
     to, `res` the returned node.  None or (expected, observed)."""
     if res is None:
@@ -486,13 +486,14 @@ def check_step(step, pre, res, fallback_root=None):
         top, hops = res, 0
         while top.parent is not None and hops < 1000:
             top, hops = top.parent, hops + 1
-        rest = check_step(step, pre, top) if top.parent is None else ("a tree", "parent cycle")
+        rest = check_step(step, pre, top, kids_before) if top.parent is None else ("a tree", "parent cycle")
         return ("returns the ROOT of the tree", {"returned_inner_node": res.data.get("label"),
                                                  "root": top.data.get("label"),
                                                  "tree_below_the_real_root_ok": rest is None})
     errs = tg.wf_errors(res, expect_n=n)
     if errs:
-        return ("returns the root of a well-formed tree with %d tokens" % n, {"wf_errors": errs[:4]})
+        return ("returns the root of a well-formed tree with %d tokens" % n,
+                {"wf_errors": errs[:4], "emptied_had_children": emptied_info(kids_before, res)})
     post = real_spec(res)
     exp_t = expected_tokens(step, pre)
     got_t = tokens(post)
@@ -545,6 +546,28 @@ def check_step(step, pre, res, fallback_root=None):
         if post_bag != pre_bag:
             return ({"constituents": _bag_labels(pre_bag)}, {"constituents": _bag_labels(post_bag)})
     return None
+
+
+def child_counts(root):
+    """python id -> number of children, taken from the real tree BEFORE a step (input state)"""
+    return {id(n): len(n.children) for n in tg.all_nodes(root)}
+
+
+def emptied_info(kids_before, root):
+    """for every childless constituent below `root`: how many children it had before the step
+    (None for a node that did not exist then)"""
+    out = []
+    for n in tg.all_nodes(root):
+        if not n.children and ("num" not in n.data or n.data.get("word") is None):
+            out.append((kids_before or {}).get(id(n)))
+    return out
+
+
+def top_of(node):
+    hops = 0
+    while node.parent is not None and hops < 1000:
+        node, hops = node.parent, hops + 1
+    return node
 
 
 def describe_wreck(root):
@@ -636,7 +659,12 @@ def handmade():
         N("VROOT", [N("S", [T(1, ","), T(2, "a")])]),
         N("VROOT", [T(1, ".")]),
         N("VROOT", [N("S", [T(1, "a"), N("VP", [T(2, "``"), T(4, "''")]), T(3, "b")])]),
+        N("VROOT", [N("S", [N("NP", [T(1, "("), T(2, "a")]), N("VP", [T(3, ")")])])]),
+        N("VROOT", [N("S", [N("NP", [T(1, "(")]), N("VP", [T(2, "a"), T(3, ")")])])]),
+        N("VROOT", [N("S", [N("NP", [T(1, "(")]), N("VP", [T(2, "a"), T(3, ")")]), T(4, "\"")])]),
+        N("VROOT", [N("S", [T(1, "a"), N("NP", [T(2, ","), T(3, ".")])])]),
     ]
     for s in out:
         s["sid"] = 1
+    out.sort(key=lambda s: len(tokens(s)))
     return out
